@@ -73,16 +73,42 @@ Theorem C15_created_tasks_ordinary_partial : forall d new n t,
 Proof. intros d new n t. exact (install_in new d n t). Qed.
 Print Assumptions C15_created_tasks_ordinary_partial.
 
+(* ExecNode.reset_task (control.py 322-327): when the loader branch has run (creator evaluated or found evaluated) the node
+   of the placeholder `me` restarts on tasks[me], which has no loader, and agrees with a FRESH node of that task
+   (new_node: what ExecNode.__init__ builds for a statically defined task, whatever its parent) in everything the
+   generator of _add_task reads to find the next dependency: task object, pending task_dep and pending calc_dep,
+   accumulated task_dep / calc_dep, position.  (Kept from the placeholder: ancestors, waiting_me, run_status, bad_deps,
+   ignored_deps.)  The seeded change C15c removes the calc_dep part of this: harness kind `calc`. *)
+Theorem C15_reset_node_as_static : forall v keys creators d me T d',
+  load_branch v keys creators d me T = LReset d' ->
+  forall anc, let t := tab_get d' me in let nd := node_of d' me in let fresh := new_node anc me t in
+  dt_loader t = None /\ dn_task nd = t /\
+  dn_pt nd = dn_pt fresh /\ dn_pcl nd = dn_pcl fresh /\ dn_at nd = dn_at fresh /\ dn_ac nd = dn_ac fresh /\
+  dn_pc nd = dn_pc fresh /\ dn_pcl nd = t_calc_dep (dt t) /\ dn_pt nd = t_task_dep (dt t).
+Proof. exact load_branch_reset_fresh. Qed.
+Print Assumptions C15_reset_node_as_static.
+
+(* consequence: a created task with calc_dep that takes over its placeholder's node (creator returning one dict; plain task
+   named like the creator or like an entry of `creates`; sub-task selected by name) is not handed to the runner first:
+   the restarted generator first instantiates the node of its first calc_dep task (first in the iteration order of the set) *)
+Theorem C15_reset_then_calc_dep_first : forall v keys creators calc_rank d me T d' c r fuel,
+  load_branch v keys creators d me T = LReset d' ->
+  sort_by calc_rank (t_calc_dep (dt (tab_get d' me))) = c :: r ->
+  c <> me -> q_nodes d' c = None ->
+  fst (gen_step v keys creators calc_rank (S (S (S fuel))) d' me) = YNode c.
+Proof. exact reset_then_calc_dep_first. Qed.
+Print Assumptions C15_reset_then_calc_dep_first.
+
 (* PARTIAL (three statements).  A command-line word f that is no task, no known target, whose
    basename is no task and that is matched by exactly one delayed task k (target_regex, or any
    delayed task with --auto-delayed-regex): *)
 (* 1. _filter_tasks selects exactly one new task `_regex_target_f:k`, a placeholder with k's loader
       and file_dep [f], in a fresh RegexGroup {target f; tasks {k}; not found}, and sets loader.basename = k *)
-Theorem C15_regex_target_select_partial : forall base_of is_rx rmatch rx_name auto s f k T,
+Theorem C15_regex_target_select_partial : forall sv base_of is_rx rmatch rx_name auto s f k T,
   q_tab (ss_d s) f = None -> q_tg (ss_d s) f = None -> q_tab (ss_d s) (base_of f) = None ->
-  matched is_rx rmatch auto (ss_d s) (ss_order s) f = [k] ->
+  matched sv is_rx rmatch auto (ss_d s) (ss_order s) (ss_sub s) f = [k] ->
   dt_loader (tab_get (ss_d s) k) = Some T ->
-  exists s', filter_one base_of is_rx rmatch rx_name auto s f = Some s' /\
+  exists s', filter_one sv base_of is_rx rmatch rx_name auto s f = Some s' /\
     let nm := rx_name f k in
     q_torun (ss_d s') = q_torun (ss_d s) ++ [nm] /\
     q_rxg (ss_d s') nm = Some (ss_gnext s) /\
@@ -118,6 +144,23 @@ Proof.
   exact (conj (load_branch_not_found v keys creators d me T d2 g f k H1 H2 H3 H4 H5) (not_found_exit r f)).
 Qed.
 Print Assumptions C15_regex_target_missing_partial.
+
+(* _filter_tasks after the repair 01f48fb.  A word w selected as a sub-task of a delayed task (w is no task and no target,
+   tasks[base_of w] has a loader: control.py 214-223 makes a placeholder that shares that loader OBJECT) is recorded, and
+   whatever words follow: w is never matched by the target_regex / --auto-delayed-regex loop again, so it is a member of
+   no RegexGroup (the group whose `tasks.remove(loader.basename)` raised KeyError had the placeholder as a member and
+   `loader.basename` overwritten with its name) and gets no `_regex_target_<f>:w` task.  Not proved: that no run of the
+   dispatcher can reach LKeyError at all (needs the run invariant group.tasks >= {basename of the loaders of the group's
+   placeholders}); after this repair the correspondence check treats every escaped KeyError as a violation (oracle R1) *)
+Theorem C15_subtask_placeholder_never_regex_matched : forall base_of is_rx rmatch rx_name auto s w tb T s1 fs s2,
+  q_tab (ss_d s) w = None -> q_tg (ss_d s) w = None -> q_tab (ss_d s) (base_of w) = Some tb -> dt_loader tb = Some T ->
+  (forall g, ~ In w (g_tasks (q_grp (ss_d s) g))) ->
+  filter_one SelHead base_of is_rx rmatch rx_name auto s w = Some s1 ->
+  filter_tasks SelHead base_of is_rx rmatch rx_name auto s1 fs = Some s2 ->
+  In w (ss_sub s2) /\ (forall g, ~ In w (g_tasks (q_grp (ss_d s2) g))) /\
+  (forall f, ~ In w (matched SelHead is_rx rmatch auto (ss_d s2) (ss_order s2) (ss_sub s2) f)).
+Proof. exact subtask_word_never_in_regex_group. Qed.
+Print Assumptions C15_subtask_placeholder_never_regex_matched.
 
 (* ------------------------------------------------------------------ examples (non-vacuity) *)
 (* names: 1 = static task x, 2 = delayed task d (create_after(executed='x', target_regex=..)),
@@ -156,7 +199,7 @@ Proof. vm_compute. split; reflexivity. Qed.
 
 (* selection by target: `doit run <10>` with target_regex matching: exactly the producer d:a, its
    dependency x and the placeholder are run; d:b is not *)
-Definition ex_sel (w : name) := process_sel (fun n => if n =? 5 then 2 else n) (fun n => 20 <=? n)
+Definition ex_sel (w : name) := process_sel SelHead (fun n => if n =? 5 then 2 else n) (fun n => 20 <=? n)
                                             (fun T f => f <? 13) (fun f k => 10 + f) false
                                             (loaded ex_tab ex_ld (fun _ => None)) [1; 2] (Some [w]).
 Example C15_regex_target_example :
@@ -282,7 +325,7 @@ Definition ft_tab (n : name) : option dtask :=
 Definition ft_ld (n : name) : loader := Build_loader 0 (Some 1) None false false.
 Definition ft_creators (c : N) (t : name) : list (name * dtask) := [(2, ex_sub [3] []); (3, ex_sub [] [])].
 Definition ft_sel (ws : list name) :=
-  process_sel (fun n => if n =? 3 then 2 else n) (fun _ => false) (fun _ _ => false) (fun f k => 0) false
+  process_sel SelHead (fun n => if n =? 3 then 2 else n) (fun _ => false) (fun _ _ => false) (fun f k => 0) false
               (loaded ft_tab ft_ld (fun _ => None)) [1; 2; 4] (Some ws).
 Definition ft_run (ws : list name) :=
   option_map (fun d => run_serial VHead [1; 2; 3; 4] ft_creators (fun _ _ => 0) (fun x => x) true false 200 d) (ft_sel ws).
@@ -307,3 +350,86 @@ Proof.
     split; [vm_compute; tauto | vm_compute; intuition discriminate].
 Qed.
 Print Assumptions C15_created_subtask_keeps_failed_trigger_refuted.
+
+(* ------------------------------------------------------------------ a created task with calc_dep that takes over its placeholder's node *)
+(* names: 1 = x, 2 = d = create_after(executed='x') whose creator returns ONE dict (so the created task is called d)
+   with calc_dep [k]; 6 = k, its action returns {'task_dep': ['h']}; 7 = h *)
+Definition cd_prov : dtask :=
+  {| dt := Build_task [] [] [] false false CkRun false OOk [7] [] []; dt_file_dep := []; dt_targets := []; dt_loader := None |}.
+Definition cd_tab (n : name) : option dtask :=
+  if n =? 1 then Some ex_x else if n =? 2 then Some ex_ph else if n =? 6 then Some cd_prov else if n =? 7 then Some ex_x else None.
+Definition cd_made : dtask :=
+  {| dt := Build_task [] [] [6] false false CkRun false OOk [] [] []; dt_file_dep := []; dt_targets := []; dt_loader := None |}.
+Definition cd_creators (c : N) (t : name) : list (name * dtask) := [(2, cd_made)].
+Definition cd_d0 : dst := set_torun (loaded cd_tab ex_ld (fun _ => None)) [2].
+Definition cd_run := run_serial VHead [1; 2; 6; 7] cd_creators (fun _ _ => 0) (fun x => x) false false 200 cd_d0.
+
+(* `doit run d`: x, the creator, then k (calc_dep of the created d), then h (task_dep computed by k), then d *)
+Example C15_created_calc_dep_example :
+  enc_dtrace (fst cd_run) =
+  [1;1; 5;1; 7;1; 6;1;  14;0;2;2;  1;6; 5;6; 7;6; 6;6;  1;7; 5;7; 7;7; 6;7;  1;2; 5;2; 7;2; 6;2;  10]%Z /\ snd cd_run = 0.
+Proof. vm_compute. split; reflexivity. Qed.
+
+(* the hypotheses of C15_reset_node_as_static / C15_reset_then_calc_dep_first are satisfiable *)
+Example C15_reset_node_nonvacuous :
+  exists d', load_branch VHead [1; 2; 6; 7] cd_creators cd_d0 2 2 = LReset d' /\
+             sort_by (fun x => x) (t_calc_dep (dt (tab_get d' 2))) = [6] /\ 6 <> 2 /\ q_nodes d' 6 = None.
+Proof. eexists. split; [vm_compute; reflexivity|]. vm_compute. repeat split; discriminate. Qed.
+
+(* ------------------------------------------------------------------ a sub-task selected by name together with a regex-resolved target *)
+(* dodo: @create_after() def task_c(): yield sub-task 1 (target one.txt), sub-task 2 (target two.txt); --auto-delayed-regex.
+   names: 2 = c, 3 = 'c:1', 4 = 'c:2', 5 = 'c:1:1', 6 = 'c:1:2', 10 = one.txt, 11 = two.txt, 12 = nothing.txt,
+   10*f + k = '_regex_target_<f>:<k>'.  generate_tasks(to_load, ...): to_load = c gives c, c:1, c:2; to_load = 'c:1' (only
+   reachable through the overwritten loader.basename) gives 'c:1', 'c:1:1', 'c:1:2' *)
+Definition sp_tab (n : name) : option dtask :=
+  if n =? 2 then Some {| dt := empty_task; dt_file_dep := []; dt_targets := []; dt_loader := Some 2 |} else None.
+Definition sp_ld (n : name) : loader := Build_loader 0 None None false false.
+Definition sp_creators (c : N) (t : name) : list (name * dtask) :=
+  if t =? 2 then [(2, ex_sub [3; 4] []); (3, ex_sub [] [10]); (4, ex_sub [] [11])]
+  else [(3, ex_sub [5; 6] []); (5, ex_sub [] [10]); (6, ex_sub [] [11])].
+Definition sp_sel sv (ws : list name) :=
+  process_sel sv (fun n => if (n =? 3) || (n =? 4) then 2 else n) (fun n => 100 <=? n) (fun _ _ => false) (fun f k => 10 * f + k) true
+              (loaded sp_tab sp_ld (fun _ => None)) [2] (Some ws).
+Definition sp_run sv (ws : list name) :=
+  option_map (fun d => let r := run_serial VHead [2; 3; 4; 5; 6; 112; 113; 122; 123] sp_creators (fun _ _ => 0) (fun x => x) false false 200 d in
+                       (enc_dtrace (fst r), snd r)) (sp_sel sv ws).
+
+(* HEAD: `doit run --auto-delayed-regex c:1 nothing.txt`: the creator is evaluated for c, c:1 runs, then nothing.txt is
+   reported as produced by nobody (InvalidCommand, exit status 3); `... c:1 two.txt`: exactly c:1 and c:2 (and the
+   hidden _regex_target placeholder) run, exit status 0 *)
+Example C15_subtask_and_regex_target_example :
+  sp_run SelHead [3; 12] = Some ([14;0;2;2;  1;3; 5;3; 7;3; 6;3;  10;  15;12]%Z, 3) /\
+  sp_run SelHead [3; 11] = Some ([14;0;2;2;  1;3; 5;3; 7;3; 6;3;  1;4; 5;4; 7;4; 6;4;  1;112; 5;112; 7;112; 6;112;  10]%Z, 0).
+Proof. vm_compute. split; reflexivity. Qed.
+
+(* REFUTED for the code before 01f48fb (shape 'subtask-placeholder-regex'): the placeholder c:1 is matched as if it were a
+   task-creator, loader.basename becomes 'c:1', the creator is evaluated with that basename (tasks c:1:1 and c:1:2 -- both
+   run, under wrong names), and with an unknown target the second `regex_group.tasks.remove('c:1')` raises KeyError
+   ([16]) instead of the invalid-parameter error [15; 12] *)
+Theorem C15_subtask_placeholder_regex_legacy_refuted :
+  sp_run SelLegacy [3; 12] =
+    Some ([14;0;2;3;  1;5; 5;5; 7;5; 6;5;  1;6; 5;6; 7;6; 6;6;  1;3; 5;3; 7;3; 6;3;  1;122; 5;122; 7;122; 6;122;  10;  16]%Z, 3) /\
+  sp_run SelLegacy [3; 11] =
+    Some ([14;0;2;3;  1;5; 5;5; 7;5; 6;5;  1;6; 5;6; 7;6; 6;6;  1;3; 5;3; 7;3; 6;3;  1;112; 5;112; 7;112; 6;112;  10]%Z, 0) /\
+  (exists s, filter_tasks SelLegacy (fun n => if (n =? 3) || (n =? 4) then 2 else n) (fun n => 100 <=? n) (fun _ _ => false)
+                          (fun f k => 10 * f + k) true
+                          {| ss_d := loaded sp_tab sp_ld (fun _ => None); ss_order := [2]; ss_gnext := 0; ss_sub := [] |} [3; 12] = Some s /\
+             In 3 (g_tasks (q_grp (ss_d s) 0)) /\ l_basename (q_ld (ss_d s) 2) = Some 3).
+Proof.
+  split; [vm_compute; reflexivity|]. split; [vm_compute; reflexivity|].
+  eexists. split; [vm_compute; reflexivity|]. vm_compute. split; [tauto|reflexivity].
+Qed.
+Print Assumptions C15_subtask_placeholder_regex_legacy_refuted.
+
+(* the hypotheses of C15_subtask_placeholder_never_regex_matched are satisfiable: the selection [c:1; nothing.txt] above *)
+Example C15_subtask_placeholder_nonvacuous :
+  let s0 := {| ss_d := loaded sp_tab sp_ld (fun _ => None); ss_order := [2]; ss_gnext := 0; ss_sub := [] |} in
+  q_tab (ss_d s0) 3 = None /\ q_tg (ss_d s0) 3 = None /\ (exists tb, q_tab (ss_d s0) 2 = Some tb /\ dt_loader tb = Some 2) /\
+  (exists s1 s2, filter_one SelHead (fun n => if (n =? 3) || (n =? 4) then 2 else n) (fun n => 100 <=? n) (fun _ _ => false)
+                            (fun f k => 10 * f + k) true s0 3 = Some s1 /\
+                 filter_tasks SelHead (fun n => if (n =? 3) || (n =? 4) then 2 else n) (fun n => 100 <=? n) (fun _ _ => false)
+                              (fun f k => 10 * f + k) true s1 [12] = Some s2 /\ g_tasks (q_grp (ss_d s2) 0) = [2]).
+Proof.
+  cbv zeta. split; [reflexivity|]. split; [reflexivity|]. split; [eexists; split; reflexivity|].
+  eexists. eexists. split; [vm_compute; reflexivity|]. split; vm_compute; reflexivity.
+Qed.
